@@ -24,8 +24,9 @@ def explore(ck):
         coin = gen.ALL_COINS[i % 8]
         blocks = gen.random_chain(r, coin, r.randrange(3, 8), max_tx=2, script_kinds=['p2pkh', 'p2sh', 'opret_small'])
         c = Case('k%d' % i, coin).simple_layout(blocks); T = len(blocks) - 1; comp = []; inclass = False
-        for _ in range(r.randrange(1, 5)):
-            kind = r.choice(['header_only', 'header_only', 'header_beyond', 'failed_nodata', 'stale_data_before', 'stale_nodata', 'stale_data_after', 'failed_data_before', 'ff_header'])
+        twin = Case('k%dspec' % i, coin).simple_layout(blocks)          # the same active chain without any competitor: its output is the property's expectation
+        for j in range(r.randrange(1, 5)):
+            kind = 'stale_data_after' if (i == 0 and j == 0) else r.choice(['header_only', 'header_only', 'header_beyond', 'failed_nodata', 'stale_data_before', 'stale_nodata', 'stale_data_after', 'failed_data_before', 'ff_header'])
             h = r.randrange(0, T + 1)
             mk = lambda: Block(blocks[h].prev, [coinbase_tx(h, [(50 * 10**8, P2PKH(gen.rb(r, 20)))], extra=gen.rb(r, 4))], time=r.getrandbits(31), nonce=r.getrandbits(32))
             if kind == 'header_only':
@@ -45,12 +46,13 @@ def explore(ck):
                 c.add_record(b, h, 1, off, status=(0x2b if kind.startswith('failed') else r.choice([0x0b, 0x1b, 0x0a])), ntx=1)
                 if later: inclass = True
             comp.append((kind, h))
-        c.meta.update(competitors=comp, cbs=['csv', 'unspent'] if i % 2 else ['csv'], kf=('F-C04' if inclass else None))
+        c.meta.update(competitors=comp, cbs=['csv', 'unspent'] if i % 2 else ['csv'], kf=('F-C04' if inclass else None), twin=twin)
         # inside the known class the property itself is violated by the pinned design; the implementation must then at least behave like the model
         cases.append(c)
     kf = ck.open_finding('F-C04')
     allw = ['csv', 'unspent']
     models = run.run_model(ck.tools, cases, allw)
+    spec_models = run.run_model(ck.tools, [c.meta['twin'] for c in cases], allw)
     from concurrent.futures import ThreadPoolExecutor
     def one(c): return c, run.compare_case(ck.tools, c, models[c.id], c.meta['cbs'])
     with ThreadPoolExecutor(12) as ex: results = list(ex.map(one, cases))
@@ -60,8 +62,10 @@ def explore(ck):
         # property-level oracle: the delivered hashes are the active chain's
         active = [b'%s' % b for b in []]
         for cb, diffs, rr in res:
+            if diffs and c.meta['kf'] and not run.CMP[cb](rr, spec_models[c.id + 'spec'], c):
+                ck.count('known class: implementation delivers the active chain (finding repaired?)'); continue      # inside the class the repaired behaviour (= the property) is accepted too
             if diffs:
-                ck.disagreement('%s on case %s' % (cb, c.id), '\n'.join(diffs), c, in_domain=True)   # impl differs from the mirror: never tolerated, inside or outside the class
+                ck.disagreement('%s on case %s' % (cb, c.id), '\n'.join(diffs), c, in_domain=True)   # neither the recorded behaviour nor the property's
         ck.count('known class' if c.meta['kf'] else 'outside known class')
     # spec check on the model output: outside the class the delivered block hashes are exactly the active chain (sanity instance of C04_partial);
     # inside the class the stale block shows up (C04_refuted) -> KNOWN-FINDING
@@ -74,7 +78,7 @@ def explore(ck):
             if hashes != active_hashes:
                 if kf: ck.known_finding('F-C04', kf['text'])
                 else: ck.disagreement('stale block delivered on ' + c.id, 'delivered=%s active=%s' % (hashes, active_hashes), c, in_domain=True)
-        elif hashes != active_hashes:
+        elif hashes != active_hashes or m['csv'] != spec_models[c.id + 'spec']['csv']:
             ck.disagreement('model delivers a non-active block outside the known class on ' + c.id, 'delivered=%s active=%s' % (hashes, active_hashes), c, in_domain=True)
     # exhaustive: all 256 status bytes through BlockIndexRecord::from + filter
     lines = []
